@@ -74,7 +74,7 @@ impl Leg for Iter {
 }
 
 pub fn run(ctx: &mut Ctx) {
-    let n = ctx.share(ctx.tier.pick(40_000, 2_000_000));
+    let n = ctx.share(ctx.tier.pick(200_000, 4_000_000));
     ctx.run_leg::<Iter>(n, false, 4000);
 }
 
